@@ -61,7 +61,8 @@ type CfgDoc struct {
 	IP       net.IP                   `dials:"ip"`
 	Peers    []DocPeer                `dials:"peers"`
 	Waits    []time.Duration          `dials:"waits"`
-	Whens    []time.Time              `dials:"whens"` // text-unmarshaling structs inside a slice
+	Whens    []time.Time              `dials:"whens"`   // text-unmarshaling structs inside a slice
+	PWaits   *[]time.Duration         `dials:"p_waits"` // a user-declared pointer to a list of durations
 	Timeouts map[string]time.Duration `dials:"timeouts"`
 	// a format-specific tag takes precedence over the dials tag
 	Alt string `dials:"alt_dials" json:"alt_fmt" yaml:"alt_fmt" toml:"alt_fmt"`
@@ -75,6 +76,7 @@ type DocVal struct {
 	On        *bool            `json:"on,omitempty"`
 	WaitNS    *int64           `json:"wait_ns,omitempty"`
 	WaitAsInt bool             `json:"wait_as_int,omitempty"` // JSON and Cue also accept integer nanoseconds
+	WaitEsc   bool             `json:"wait_esc,omitempty"`    // JSON: the duration string is written with \\u escapes (an ASCII-only writer)
 	When      *string          `json:"when,omitempty"`
 	Tags      []string         `json:"tags,omitempty"`
 	Nums      []int            `json:"nums,omitempty"`
@@ -94,6 +96,7 @@ type DocVal struct {
 	EmbN      *int             `json:"emb_n,omitempty"`
 	EmbS      *string          `json:"emb_s,omitempty"`
 	Whens     []string         `json:"whens,omitempty"`
+	PWaitsNS  []int64          `json:"p_waits_ns,omitempty"`
 }
 
 type PeerVal struct {
@@ -152,6 +155,7 @@ func (g *gen) docVal(p int) DocVal {
 		}
 		v.WaitNS = i64p(d)
 		v.WaitAsInt = g.pct(40)
+		v.WaitEsc = !v.WaitAsInt && g.pct(30)
 	}
 	if g.pct(p) {
 		v.When = sp(fmt.Sprintf("2021-03-%02dT04:05:06Z", 1+n%27))
@@ -212,6 +216,11 @@ func (g *gen) docVal(p int) DocVal {
 			v.Whens = append(v.Whens, fmt.Sprintf("2019-11-%02dT10:11:12Z", 1+(n+i)%27))
 		}
 	}
+	if g.pct(p / 3) {
+		for i, k := 0, g.in(1, 2); i < k; i++ {
+			v.PWaitsNS = append(v.PWaitsNS, int64(n+i)*int64(time.Second)+int64(i)*int64(time.Millisecond))
+		}
+	}
 	if g.pct(p / 2) {
 		v.EmbN = ip(n*5 + 2)
 	}
@@ -253,7 +262,7 @@ func genStream(seed uint64, faulty bool) *Scenario {
 	sc := &Scenario{Prop: "C13", Seed: seed, Faulty: faulty}
 	st := &StreamSpec{Fault: "none", Format: streamFormats[g.r.IntN(len(streamFormats))]}
 	st.Def = g.docVal(40)
-	st.Def.WaitAsInt = false
+	st.Def.WaitAsInt, st.Def.WaitEsc = false, false
 	st.Val = g.docVal(55)
 	if faulty {
 		st.Fault = []string{"chunk", "chunk", "err-at-k", "err-at-k", "truncate", "corrupt-known", "corrupt-known", "byte-flip"}[g.r.IntN(8)]
@@ -344,6 +353,13 @@ func (v *DocVal) expected(def *DocVal) *CfgDoc {
 				c.Whens = append(c.Whens, t)
 			}
 		}
+		if l.PWaitsNS != nil {
+			w := []time.Duration{}
+			for _, x := range l.PWaitsNS {
+				w = append(w, time.Duration(x))
+			}
+			c.PWaits = &w
+		}
 		if l.EmbN != nil {
 			c.EmbN = *l.EmbN
 		}
@@ -422,6 +438,19 @@ func (v *DocVal) fields(format string) (top []kv, limits []kv, in []kv, pin []kv
 	if v.WaitNS != nil {
 		if v.WaitAsInt && (format == "json" || format == "cue") {
 			top = append(top, kv{"wait", strconv.FormatInt(*v.WaitNS, 10)})
+		} else if v.WaitEsc && format == "json" {
+			// the same string, every unit letter as a \uXXXX escape
+			var b strings.Builder
+			b.WriteByte('"')
+			for _, c := range time.Duration(*v.WaitNS).String() {
+				if c >= 'a' && c <= 'z' || c > 127 {
+					fmt.Fprintf(&b, "\\u%04x", c)
+				} else {
+					b.WriteRune(c)
+				}
+			}
+			b.WriteByte('"')
+			top = append(top, kv{"wait", b.String()})
 		} else {
 			top = append(top, kv{"wait", str(time.Duration(*v.WaitNS).String())})
 		}
@@ -454,6 +483,13 @@ func (v *DocVal) fields(format string) (top []kv, limits []kv, in []kv, pin []kv
 		} else {
 			top = append(top, kv{"whens", quoteList(v.Whens)})
 		}
+	}
+	if v.PWaitsNS != nil {
+		q := make([]string, len(v.PWaitsNS))
+		for i, x := range v.PWaitsNS {
+			q[i] = str(time.Duration(x).String())
+		}
+		top = append(top, kv{"p_waits", "[" + strings.Join(q, ", ") + "]"})
 	}
 	if v.WaitsNS != nil {
 		q := make([]string, len(v.WaitsNS))
@@ -991,7 +1027,7 @@ func (r *streamRun) checkUnset(format string, val reflect.Value, v *DocVal, doc 
 		"Name": v.Name == nil, "Count": v.Count == nil, "Ratio": v.Ratio == nil, "On": v.On == nil, "Wait": v.WaitNS == nil,
 		"When": v.When == nil, "Tags": v.Tags == nil, "Nums": v.Nums == nil, "Limits": v.Limits == nil, "Set": v.Set == nil,
 		"In": v.InHost == nil && v.InPort == nil, "PIn": v.PInHost == nil && v.PInPort == nil, "IP": v.IP == nil, "Peers": v.Peers == nil, "Alt": v.Alt == nil, "Waits": v.WaitsNS == nil, "Timeouts": v.TimeoutNS == nil,
-		"DocEmb": v.EmbN == nil && v.EmbS == nil, "Whens": v.Whens == nil,
+		"DocEmb": v.EmbN == nil && v.EmbS == nil, "Whens": v.Whens == nil, "PWaits": v.PWaitsNS == nil,
 	}
 	names := make([]string, 0, len(want))
 	for n := range want {
